@@ -8,6 +8,8 @@ import (
 	"os"
 	"runtime"
 	"strings"
+	"sync"
+	"sync/atomic"
 
 	"github.com/datastax/go-cassandra-native-protocol/compression/lz4"
 	"github.com/datastax/go-cassandra-native-protocol/compression/snappy"
@@ -296,4 +298,35 @@ func harnessTrouble(verdict string) string {
 		return "SKIP: " + strings.TrimPrefix(verdict, "FAIL: ")
 	}
 	return verdict
+}
+
+// everyNth thins a property whose cases are much more expensive than those of its siblings (the driver gives every test of
+// a property the same case count): only every n-th call runs. A counter, not a drawn value (rapid's integer generators
+// favour small values); the skipped calls draw nothing and record nothing.
+var nthCounters sync.Map
+
+func everyNth(name string, quickN, thoroughN int) bool {
+	n := quickN
+	if thorough() {
+		n = thoroughN
+	}
+	if n <= 1 {
+		return true
+	}
+	if sawFailure.Load() {
+		return true // a failure is being minimised or replayed: every call counts
+	}
+	c, _ := nthCounters.LoadOrStore(name, new(atomic.Int64))
+	return c.(*atomic.Int64).Add(1)%int64(n) == 1
+}
+
+var sawFailure atomic.Bool
+
+// noteFailure (deferred by thinned properties): rapid aborts a failing case by panicking; from then on no call is skipped, so
+// that rapid can reproduce and minimise the failure.
+func noteFailure() {
+	if r := recover(); r != nil {
+		sawFailure.Store(true)
+		panic(r)
+	}
 }
